@@ -143,6 +143,8 @@ type c11Fake struct {
 	iterErr       *c11Fault
 
 	beginBadConn int // that many upcoming Begin attempts fail with driver.ErrBadConn (a dead pooled connection)
+	rowsOpened   int // result sets the driver handed out
+	rowsClosed   int // ... and those closed again (an open result set keeps its connection checked out of the pool)
 	openTx       int // transactions currently open on this server
 }
 
@@ -334,7 +336,10 @@ func (c *c11Conn) doQuery() (driver.Rows, error) {
 	if e := f.takeArmed(); e != nil {
 		return nil, e.out()
 	}
-	return &c11Rows{cols: f.cols, rows: f.rows, failAfter: f.iterFailAfter, failErr: f.iterErr.out()}, nil
+	f.mu.Lock()
+	f.rowsOpened++
+	f.mu.Unlock()
+	return &c11Rows{f: f, cols: f.cols, rows: f.rows, failAfter: f.iterFailAfter, failErr: f.iterErr.out()}, nil
 }
 
 type c11Stmt struct {
@@ -382,6 +387,8 @@ func (t *c11Tx) Rollback() error {
 }
 
 type c11Rows struct {
+	f         *c11Fake
+	closed    bool
 	cols      []string
 	rows      [][]driver.Value
 	i         int
@@ -390,7 +397,22 @@ type c11Rows struct {
 }
 
 func (r *c11Rows) Columns() []string { return r.cols }
-func (r *c11Rows) Close() error      { return nil }
+func (r *c11Rows) Close() error {
+	if r.f != nil && !r.closed {
+		r.closed = true
+		r.f.mu.Lock()
+		r.f.rowsClosed++
+		r.f.mu.Unlock()
+	}
+	return nil
+}
+
+// openRows: result sets the driver handed out that were never closed.
+func (f *c11Fake) openRows() (open, opened int) {
+	f.mu.Lock()
+	defer f.mu.Unlock()
+	return f.rowsOpened - f.rowsClosed, f.rowsOpened
+}
 func (r *c11Rows) Next(dest []driver.Value) error {
 	if r.failAfter >= 0 && r.i >= r.failAfter {
 		return r.failErr
@@ -1026,6 +1048,7 @@ func VerifC11InterpTx(c C11TxCase, run C11Runner) (v kit.Verdict) {
 	}
 	f.takeArmed()
 	events := f.snapshot()
+	rowsLeft, rowsOpened := f.openRows()
 	if c.FBegin == "badconn1" && len(events) >= 2 && events[0] == "begin" && events[1] == "begin" {
 		events = events[1:] // the attempt on the dead connection, retried by database/sql
 	}
@@ -1208,6 +1231,9 @@ func VerifC11InterpTx(c C11TxCase, run C11Runner) (v kit.Verdict) {
 	}
 	if queryWrong != "" {
 		return v.Failf("%s", queryWrong)
+	}
+	if rowsLeft != 0 && commits+rollbacks > 0 {
+		return v.Failf("the transaction is over but %d of the %d result set(s) its queries opened were never closed (%s)", rowsLeft, rowsOpened, describe())
 	}
 	if nestedWrong != "" {
 		return v.Failf("%s (%s)", nestedWrong, describe())
@@ -2830,6 +2856,16 @@ func VerifC11InterpRows(c C11RowsCase, q C11Querier) (v kit.Verdict) {
 		}()
 		return q(c, db, dst), nil
 	}
+	// leakCheck: once the call (and the transaction / prepared statement around it) is
+	// over, every result set the driver handed out must have been closed: an open one
+	// keeps its connection checked out, so on a bounded pool later queries never get
+	// a result. Checked whatever else the case is judged for (a panic unwinds past it).
+	leakCheck := func() string {
+		if open, opened := f.openRows(); open != 0 {
+			return fmt.Sprintf("the call returned but %d of the %d result set(s) the driver handed out were never closed: the connection stays checked out of the pool", open, opened)
+		}
+		return ""
+	}
 
 	// ---------------- primitive destinations
 	if c.Prim != "" {
@@ -2849,6 +2885,12 @@ func VerifC11InterpRows(c C11RowsCase, q C11Querier) (v kit.Verdict) {
 			dst = reflect.New(reflect.SliceOf(et))
 		}
 		err, pv := call(dst.Interface())
+		if leak := leakCheck(); leak != "" && pv == nil {
+			return v.Failf("%s (result %v)", leak, err)
+		}
+		if leak := leakCheck(); leak != "" && pv == nil {
+			return v.Failf("%s (result %v)", leak, err)
+		}
 		primHolds := func() string {
 			if c.Single {
 				if x := c11Norm(c.Prim, dst.Elem()); x != nil {
